@@ -232,7 +232,7 @@ func mkNot(a *Term) *Term {
 	}
 	// negation normal form: push through and/or so that absorption rules see literals
 	var r *Term
-	if a.op == OpAnd || a.op == OpOr {
+	if (a.op == OpAnd || a.op == OpOr) && len(a.args) <= 3 {
 		neg := make([]*Term, len(a.args))
 		for i, x := range a.args {
 			neg[i] = mkNot(x)
@@ -277,7 +277,7 @@ func mkAnd(xs ...*Term) *Term {
 		if x.IsFalse() {
 			return tFalse
 		}
-		if x.op == OpAnd {
+		if x.op == OpAnd && len(x.args) <= flattenLimit {
 			flat = append(flat, x.args...)
 		} else {
 			flat = append(flat, x)
@@ -356,7 +356,7 @@ func mkOr(xs ...*Term) *Term {
 		if x.IsTrue() {
 			return tTrue
 		}
-		if x.op == OpOr {
+		if x.op == OpOr && len(x.args) <= flattenLimit {
 			flat = append(flat, x.args...)
 		} else {
 			flat = append(flat, x)
@@ -522,6 +522,9 @@ func mkIte(c, a, b *Term) *Term {
 }
 
 const liftLimit = 24
+
+// flattenLimit bounds and/or flattening so that large guards stay shared sub-terms
+const flattenLimit = 6
 
 // liftIte distributes an operation over ite-trees of constants.
 func liftIte(build func(args []*Term) *Term, args []*Term) *Term {
